@@ -26,11 +26,15 @@ ShowsIo(to) == to \in {"json", "yaml", "toml"}
 
 Fail(r) ==
   /\ ~r.panic                                                         \* C04
-  /\ r.side = "input" => (r.res = "err" /\ r.same_across_targets /\ ~r.has_tf /\ r.pos_ok)
+  /\ r.side = "input" => (r.res = "err" /\ r.same_across_targets /\ ~r.has_tf /\ r.pos_ok
+                           /\ ("bare_io" \in DOMAIN r => ~r.bare_io))   \* the parser's message, not a bare I/O text
   /\ r.side \in {"value", "write"} =>
         /\ r.res = "err"                                               \* refused / the write failure is reported
         /\ r.reason_nonempty                                           \* the serializer's own reason is in the text
         /\ (r.side = "write" /\ ShowsIo(r.to)) => r.has_writer_msg
+        \* a serializer that does not display the I/O error (MessagePack) still gives its own reason:
+        \* the text is more than the writer's message
+        /\ (r.side = "write" /\ ~ShowsIo(r.to) /\ "only_io" \in DOMAIN r) => ~r.only_io
 
 Init == l = 1
 Next == l <= Len(Rec) /\ Rec[l].ev = "fail" /\ Fail(Rec[l]) /\ l' = l + 1
